@@ -116,6 +116,20 @@ def result_err_variant(ex, st, variant):
 
 # ------------------------------------------------------------------ monitors
 
+def monitor_handler_kept(E, D):
+    """on every path of the exchange function the CUP handler configuration is left as found"""
+    ex = E.ex
+    hp = smodels.sm_field_path(ex, ['cup_handler'])
+    ini = ex.load(State(), 'sm', [(k, None) for k in hp])
+    for st in E.paths:
+        if st.status != 'done':
+            D.no_bad_status([st])
+            continue
+        D.nprops += 1
+        if not ex.veq(ex.load(st, 'sm', [(k, None) for k in hp]), ini):
+            D.failed = D.failed or ('violated', 'the exchange leaves the state machine with another CUP handler configuration than it found (path: %s)' % classify(E, st)['names'], None, st)
+
+
 def monitor_c02(E, D):
     """C02 on the exchange function: verification is unconditional and first; a failed verification
     ends the exchange with CupValidation and touches nothing"""
@@ -129,6 +143,14 @@ def monitor_c02(E, D):
             continue
         I_ = classify(E, st)
         names = I_['names']
+        # whatever happens in the exchange, the handler configuration of the state machine is left as found
+        # (every later request must be decorated and verified like this one)
+        hp = smodels.sm_field_path(ex, ['cup_handler'])
+        cur = ex.load(st, 'sm', [(k, None) for k in hp])
+        ini = ex.load(State(), 'sm', [(k, None) for k in hp])
+        if not ex.veq(cur, ini):
+            D.failed = ('violated', 'the exchange leaves the state machine with another CUP handler configuration than it found (path: %s)' % names, None, st)
+            return
         if not I_.get('build_ok') or not I_.get('request') or not I_.get('http_ok'):
             continue
         if I_['handler_some']:
